@@ -54,6 +54,7 @@ type c6Run struct {
 	nTasks   int
 	lastSeq  map[[2]int]int
 	sinkBeh  int
+	extraDest io.Writer
 }
 
 type c6Sink struct {
@@ -159,6 +160,18 @@ func firstDiff(a, b []byte) int {
 	return n
 }
 
+// c6DiscardHook discards every event whose message selects it (deterministic
+// per event, so the chain run alone and the concurrent run agree).
+type c6DiscardHook struct{}
+
+func (c6DiscardHook) Run(e *zerolog.Event, l zerolog.Level, msg string) {
+	zsim.Yield("discard hook")
+	if len(msg) > 0 && fnv([]byte(msg))%3 == 0 {
+		zsim.Probe("hook_discards_event")
+		e.Discard()
+	}
+}
+
 type c6Hook struct{ name string }
 
 func (h c6Hook) Run(e *zerolog.Event, l zerolog.Level, msg string) {
@@ -183,6 +196,20 @@ func (r *c6Run) buildDest() io.Writer {
 		return zerolog.LevelWriterAdapter{Writer: a}
 	case 6:
 		return b
+	case 7:
+		// the same destination behind two nested SyncWriter wrappers; loggers use either
+		r.synced = true
+		sw1 := zerolog.SyncWriter(a)
+		r.extraDest = zerolog.SyncWriter(sw1)
+		return sw1
+	case 8:
+		return zerolog.NewConsoleWriter(func(w *zerolog.ConsoleWriter) {
+			w.Out = a
+			w.NoColor = true
+			w.TimeFormat = time.RFC3339
+			w.FieldsOrder = []string{"f1", "id", "f0", "f3", "hook"}
+			w.FieldsExclude = []string{"f5"}
+		})
 	}
 	return a
 }
@@ -245,24 +272,55 @@ func (c06World) Run(prop string, ch *zsim.Choices, trace bool) *RunResult {
 		zerolog.ErrorHandler = func(err error) { r.errCalls++ }
 		r.sinks[0] = &c6Sink{r: r, idx: 0}
 		r.sinks[1] = &c6Sink{r: r, idx: 1}
-		r.dest = ch.Weighted(4, 3, 2, 2, 1, 1, 1)
+		r.dest = ch.Weighted(4, 3, 2, 2, 1, 1, 1, 2, 2)
 		r.sinkBeh = ch.Weighted(4, 2, 2)
-		dest := r.buildDest()
-		root := zerolog.New(dest)
-		r.loggers = []zerolog.Logger{root}
+		// logger derivations are drawn once and built twice: one set of loggers and
+		// destination wrappers for the reference (solo) runs, a fresh identical set
+		// for the concurrent phase, so that lazily initialised state inside a
+		// wrapper is first touched under concurrency
+		type lspec struct {
+			parent, kind int
+			ops          []fop
+			name         string
+		}
+		var specs []lspec
+		nLog := 1
+		if r.dest == 7 {
+			nLog = 2
+		}
 		nl := ch.Intn(4)
 		for i := 0; i < nl; i++ {
-			parent := r.loggers[ch.Intn(len(r.loggers))]
-			switch ch.Intn(4) {
-			case 0, 1:
-				r.loggers = append(r.loggers, applyCtx(parent.With(), genOps(ch, 1+ch.Intn(3), 1, fmt.Sprintf("c%d_", i))).Logger())
-			case 2:
-				r.loggers = append(r.loggers, parent.Level(zerolog.WarnLevel))
-			case 3:
-				r.loggers = append(r.loggers, parent.Hook(c6Hook{fmt.Sprintf("h%d", i)}))
+			sp := lspec{parent: ch.Intn(nLog), kind: ch.Intn(5), name: fmt.Sprintf("h%d", i)}
+			if sp.kind <= 1 {
+				sp.ops = genOps(ch, 1+ch.Intn(3), 1, fmt.Sprintf("c%d_", i))
 			}
+			specs = append(specs, sp)
+			nLog++
 		}
-		zlog.Logger = root.With().Str("global", "g").Logger()
+		build := func() {
+			r.extraDest = nil
+			dest := r.buildDest()
+			root := zerolog.New(dest)
+			r.loggers = []zerolog.Logger{root}
+			if r.extraDest != nil {
+				r.loggers = append(r.loggers, root.Output(r.extraDest))
+			}
+			for _, sp := range specs {
+				parent := r.loggers[sp.parent]
+				switch sp.kind {
+				case 4:
+					r.loggers = append(r.loggers, parent.Hook(c6DiscardHook{}))
+				case 0, 1:
+					r.loggers = append(r.loggers, applyCtx(parent.With(), sp.ops).Logger())
+				case 2:
+					r.loggers = append(r.loggers, parent.Level(zerolog.WarnLevel))
+				case 3:
+					r.loggers = append(r.loggers, parent.Hook(c6Hook{sp.name}))
+				}
+			}
+			zlog.Logger = root.With().Str("global", "g").Logger()
+		}
+		build()
 		r.nTasks = 2 + ch.Weighted(4, 3, 2, 1, 1)
 		r.flips = ch.Chance(1, 5)
 		withErrors := ch.Chance(1, 6)
@@ -299,6 +357,7 @@ func (c06World) Run(prop string, ch *zsim.Choices, trace bool) *RunResult {
 			}
 		}
 		r.solo = nil
+		build()
 		s.ArmDraw([]string{"event.go", "array.go", "log.go", "writer.go", "console.go", "globals.go", "context.go", "fields.go", "encoder", "internal/json/", "log/"})
 		var tasks []*zsim.Task
 		for t := 0; t < r.nTasks; t++ {
